@@ -18,7 +18,8 @@ EXPLANATION = ("Effect analysis on the -O0 LLVM-IR call graph of witness instant
                "fmt formatting entry point or references a formatter thunk, while the positive controls (a direct-format type, "
                "std::filesystem::path) must be reported, proving the rule bites. R4: every log macro's expansion reaches nothing "
                "else. Induction over type structure: a container codec calls only its element codecs, so the instantiated base and "
-               "step cases cover every combination.")
+               "step cases cover every combination."
+               ' R5 (= C04.R2): every size pass starts from an empty size cache. R6 (= C09.R1): the consumer publishes its read position after a batch and when drained.')
 NOT_DECIDED = ("Page faults / first touch of the mapped ring, allocations inside user copy constructors of placement-deferred types and "
                "inside user clocks (excluded by the property), the 13th variable-length string of one statement.")
 ASSUMPTIONS = ["libstdc++ externals on the allowlist do not allocate (size/data accessors, tree/list iteration, clocks, nanosleep)",
